@@ -5,7 +5,9 @@
            macro calls have them; the body in math mode when the environment
            is declared so),
       (e2) [$$ … $$] display math (the fourth [mathkind], shared with the core
-           grammar).
+           grammar),
+      (e3) specials ([~], [&], [--], … whatever the context declares), without or
+           with (mandatory brace) arguments.
     Same conventions as the core grammar: whitespace is a FIELD of the item it
     precedes, [tree_of2] is in accumulator form (the collector's state after
     the items so far).
@@ -31,8 +33,9 @@ Inductive item2 :=
 | Math2 (ws : str) (k : mathkind) (body : list item2) (tr : str)   (* ws $ body tr $   (four delimiter pairs) *)
 | Cmt2 (ws text post : str)                             (* ws % text post *)
 | Par2 (ws mid : str)                                   (* ws newline mid newline *)
-| Env2 (ws bws name : str) (args body : list item2) (tr ews : str).
+| Env2 (ws bws name : str) (args body : list item2) (tr ews : str)
                                   (* ws \begin bws {name} {arg}...{arg} body tr \end ews {name} *)
+| Spc2 (ws chars : str) (args : list item2).           (* ws chars {arg}...{arg}   (specials, e.g. [~], [--]) *)
 
 Record doc2 := { d_items2 : list item2; d_trail2 : str }.
 
@@ -51,6 +54,7 @@ Fixpoint unparse_item2 (i : item2) : str :=
   | Par2 ws mid => ws ++ 10%N :: mid ++ [10%N]
   | Env2 ws bws name args b tr ews =>
       ws ++ begin_str bws name ++ flat_map unparse_item2 args ++ flat_map unparse_item2 b ++ tr ++ end_str ews name
+  | Spc2 ws chars args => ws ++ chars ++ flat_map unparse_item2 args
   end.
 Definition unparse_items2 (l : list item2) : str := flat_map unparse_item2 l.
 Definition unparse2 (d : doc2) : str := unparse_items2 (d_items2 d) ++ d_trail2 d.
@@ -59,7 +63,7 @@ Definition ilen2 (i : item2) : nat := length (unparse_item2 i).
 Definition item_ws2 (i : item2) : str :=
   match i with
   | Text2 ws _ | Grp2 ws _ _ | Mac2 ws _ _ _ | Math2 ws _ _ _ | Cmt2 ws _ _ | Par2 ws _
-  | Env2 ws _ _ _ _ _ _ => ws
+  | Env2 ws _ _ _ _ _ _ | Spc2 ws _ _ => ws
   end.
 
 (** * Side conditions *)
@@ -67,6 +71,10 @@ Definition item_ws2 (i : item2) : str :=
 (** an environment name the tokenizer accepts: [[A-Za-z0-9*._ :/!^()\[\]-]+] *)
 Definition envname_ok (name : str) : bool :=
   match name with [] => false | _ => forallb envname_char name end.
+
+(** a character that reaches the specials stage of the tokenizer's dispatch:
+    not whitespace, not the escape, math, comment or brace characters *)
+Definition plain_start (c : N) : bool := negb (is_space c) && negb (mem_c c [92;36;37;123;125]%N).
 
 (** [ok_item2 cx ps i fol]: [i] is unambiguous when written in parsing state
     [ps] and followed by the string [fol] (up to the end of the input) *)
@@ -135,6 +143,24 @@ Fixpoint ok_item2 (cx : context) (ps : pstate) (i : item2) (fol : str) {struct i
                  oka args l (flat_map unparse_item2 b ++ tr ++ end_str ews name ++ fol)
                  && oks (if sp_body_math sp then ps_enter_math ps None else ps) b
                         (tr ++ end_str ews name ++ fol)
+             | APLegacy _ => false
+             end
+         | None => false
+         end
+  | Spc2 ws chars args =>
+      (* the specials sequence is THE ONE the tokenizer finds (the longest one of the
+         context that is a prefix of what is written from there on, the earlier entry on
+         ties), it starts with a character that reaches the specials stage, and its
+         signature is standard, made of mandatory brace arguments *)
+      ws_ok ws && match chars with c :: _ => plain_start c | [] => false end
+      && match test_specials (map fst (cx_specials cx)) (chars ++ flat_map unparse_item2 args ++ fol) None with
+         | Some sc => str_eqb sc chars
+         | None => false
+         end
+      && match get_specials_spec cx chars with
+         | Some sp =>
+             match sp_args sp with
+             | APStd l => oka args l fol
              | APLegacy _ => false
              end
          | None => false
@@ -237,6 +263,17 @@ Fixpoint node_of2 (cx : context) (ps : pstate) (p0 : nat) (i : item2) {struct i}
           end
       | None => None
       end
+  | Spc2 _ chars args =>
+      match get_specials_spec cx chars with
+      | Some sp =>
+          match sp_args sp with
+          | APStd l =>
+              let ar := goa (p0 + length chars) args l in
+              Some (NSpecials p0 (snd ar) (ps_mode ps) chars (Some (map a_spec l, fst ar)))
+          | APLegacy _ => None
+          end
+      | None => None
+      end
   end.
 
 Definition absorb_item2 (cx : context) (ps : pstate) (p : nat) (st : collstate) (j : item2) : collstate :=
@@ -293,6 +330,7 @@ Fixpoint wsv2 (i i' : item2) {struct i} : Prop :=
   | Par2 ws mid, Par2 ws' mid' => wse ws ws'
   | Env2 ws _ nm a b tr _, Env2 ws' _ nm' a' b' tr' _ =>
       wse ws ws' /\ nm = nm' /\ wse tr tr' /\ all2 a a' /\ all2 b b'
+  | Spc2 ws ch a, Spc2 ws' ch' a' => wse ws ws' /\ ch = ch' /\ all2 a a'
   | _, _ => False
   end.
 Definition wsv_items2 : list item2 -> list item2 -> Prop :=
